@@ -31,6 +31,9 @@ type Shared struct {
 	preempt         int
 	poolAdversarial bool
 	lockCheck       bool
+	basePreempt     int
+	basePerm        int
+	baseSaved       bool
 	trackFuncs      bool
 	logSmt          bool
 	params          map[string]int
@@ -227,6 +230,17 @@ func (sh *Shared) runHarness(spec HarnessSpec, nworkers int, witnessCap int, dea
 	sh.params = spec.Params
 	if sh.params == nil {
 		sh.params = map[string]int{}
+	}
+	// a harness may ask for its own pre-emption bound (PREEMPT) and map-order limit (PERM)
+	if !sh.baseSaved {
+		sh.basePreempt, sh.basePerm, sh.baseSaved = sh.preempt, sh.permLimit, true
+	}
+	sh.preempt, sh.permLimit = sh.basePreempt, sh.basePerm
+	if v, ok := sh.params["PREEMPT"]; ok {
+		sh.preempt = v
+	}
+	if v, ok := sh.params["PERM"]; ok {
+		sh.permLimit = v
 	}
 	hr := &HarnessResult{Spec: spec, Asserts: map[string]int{}, Reach: map[string]int{}, Aborts: map[string]int{}, Inconcl: map[string]int{}, Violations: map[string]*Violation{}, ViolCount: map[string]int{}, LockSites: map[string]bool{}, LockEdges: map[string]string{}, Funcs: map[*ssa.Function]bool{}}
 	t0 := time.Now()
